@@ -143,7 +143,12 @@ std::complex<T> permanent_cpp(Matrix<std::complex<T>> &A, Vector<int> &rows, Vec
 
     // determine the concurrency of the calculation
     unsigned int n_threads = std::thread::hardware_concurrency();
-    auto concurrency = static_cast<int64_t>(n_threads * 4);
+    if (n_threads == 0)
+    {
+        // hardware_concurrency() may return 0 when the value is not computable
+        n_threads = 1;
+    }
+    auto concurrency = static_cast<int64_t>(n_threads) * 4;
     concurrency = concurrency < idx_max ? concurrency : idx_max;
 
     std::vector<TComplex> thread_results(static_cast<unsigned int>(concurrency), TComplex(0.0, 0.0));
